@@ -243,6 +243,35 @@ func buildItems(thorough bool) []workItem {
 		}
 	}
 
+	// ---- balancer pools whose weights are changing (LBP): initial -> target weights with equal and with
+	// different sums, poked mid-change, after the change and both; every operation of the balancer lattice runs on
+	// the weights in force, taken from the documented schedule rather than from the pool's own total
+	lbpPairs := [][2][]int64{{{9, 1}, {1, 1}}, {{1, 1}, {1, 4}}, {{1, 9}, {9, 1}}, {{2, 1}, {1, 3}}}
+	lbpPokes := [][]int64{{500}, {500, 1100}, {1100}, {250, 750}}
+	lbpRes := [][2]string{{"1000000", "1000000"}, {"1000000000000", "1000000000"}}
+	lbpSizes := []string{"1e-3", "0.1"}
+	if thorough {
+		lbpPairs = append(lbpPairs, [2][]int64{{1, 99}, {99, 1}}, [2][]int64{{1, 1}, {1048575, 1}})
+		lbpPokes = append(lbpPokes, []int64{1}, []int64{999}, []int64{1000}, []int64{100, 200, 300, 2000})
+		lbpSizes = append(lbpSizes, "1u", "0.49")
+	}
+	for _, op := range balOps {
+		for _, pr := range lbpPairs {
+			op, pr := op, pr
+			add(fmt.Sprintf("bal-lbp/%s/%v", op, pr), func(emit func(Case)) {
+				for _, pk := range lbpPokes {
+					for _, rs := range lbpRes {
+						for _, fee := range []string{"0", "0.003"} {
+							for _, sz := range lbpSizes {
+								emit(Case{Pool: "bal", Op: op, Reserves: []string{rs[0], rs[1]}, Weights: pr[0], Target: pr[1], Poke: pk, Fee: fee, ExitFee: "0", Size: sz})
+							}
+						}
+					}
+				}
+			})
+		}
+	}
+
 	// ---- stableswap, 2 assets and 3 assets
 	for _, op := range stableOps {
 		if op == "joinSingle" {
